@@ -17,6 +17,7 @@ pub fn runs(property: &str, tier: Tier) -> u64 {
     let (quick, thorough) = match property {
         "C01" | "C02" | "C03" | "C04" | "C05" | "C06" | "C08" | "C09"
         | "C10" | "C39" | "C31" | "C22" | "C34" => (480, 12000),
+        "C40" => (320, 8000),
         "C38" => (800, 20000),
         "C07" => (320, 6000),
         "C12" | "C13" | "C14" => (2400, 100000),
@@ -142,6 +143,28 @@ pub fn enga_profile(property: &str, tier: Tier) -> Option<Profile> {
             p.quiet_pct = 10;
             p.steps = if tier == Tier::Thorough { 14 } else { 8 };
         }
+        "store-fault" => {
+            only(&mut p, &[
+                (AddObj, 8), (RemoveObj, 3), (Touch, 5), (AddChild, 4),
+                (RsyncFail, 2), (RrdpFail, 2), (AspaChange, 2), (TaFault, 1),
+            ]);
+            p.via_server = true;
+            p.store_fault = true;
+            p.big_jumps = false;
+            p.quiet_pct = 0;
+            p.steps = if tier == Tier::Thorough { 3 } else { 2 };
+        }
+        "C40" => {
+            only(&mut p, &[
+                (AddObj, 6), (RemoveObj, 2), (Touch, 6), (DropChild, 4),
+                (AddChild, 4), (MoveCa, 6), (RsyncFail, 3), (RrdpFail, 3),
+                (ExpireMftEe, 2), (MftStale, 2), (CorruptArchive, 3),
+                (TaFault, 1),
+            ]);
+            p.check_cleanup = true;
+            p.gen.shared_repos = false;
+            p.steps = if tier == Tier::Thorough { 7 } else { 5 };
+        }
         "C22" => {
             only(&mut p, &[
                 (AddObj, 5), (Touch, 4), (RsyncFail, 8), (RrdpFail, 8),
@@ -213,6 +236,13 @@ pub fn describe(property: &str) -> Option<serde_json::Value> {
                       min-refresh) when min-refresh is set and the data set \
                       expires before t + refresh; refresh in {1,10,600,86400}, \
                       min-refresh in {unset,1,60,600,7200}",
+            "C40" => "directory tree before/after every successful run: no \
+                      stored point with an unexpired manifest certificate \
+                      removed; no rsync module / RRDP archive removed that a \
+                      retained point or this run uses; with dirty nothing \
+                      removed; after a (provoked) failed run nothing \
+                      removed; an offline run on what is left yields the \
+                      model's payload",
             "C31" => "transport log invariant: with allow-dubious-hosts off \
                       no fake-rsync invocation and no simulated HTTPS request \
                       targets localhost, an IP literal or an explicit port \
